@@ -732,3 +732,28 @@ def r_props_dict(ck: Checker, rule: str = "R-ENUM-SHAPE") -> None:
             raise Unsupported(f"to_properties_dict maps {norm(comps[0].key)[:30]} to {norm(comps[0].value)[:30]}", f.node)
         return
     raise Unsupported("to_properties_dict is not a single mapping over self.get_properties()", f.node)
+
+
+def r_field_order(ck: Checker, rule: str = "R-ORDER-KEY") -> None:
+    """The child / property tables list the fields in declaration order (dataclasses.fields order): nothing re-orders them."""
+    f = ck.repo.func("pyoak.typing", "process_node_fields")
+    what = "process_node_fields fills its tables in declaration order (no sorting / reversing of the fields or of the finished tables)"
+    fn = f.raw or f.node
+    returned = {n.id for r in ast.walk(fn) if isinstance(r, ast.Return) and r.value is not None for n in ast.walk(r.value) if isinstance(n, ast.Name)}
+
+    def reorders(c: ast.AST) -> bool:
+        return isinstance(c, ast.Call) and ((dotted(c.func) in ("sorted", "reversed")) or (isinstance(c.func, ast.Attribute) and c.func.attr in ("sort", "reverse")))
+
+    for st in ast.walk(fn):
+        hit = None
+        if isinstance(st, ast.For) and any(reorders(c) for c in ast.walk(st.iter)) and any(
+                isinstance(x, ast.Subscript) and isinstance(x.ctx, ast.Store) and norm(x.value) in returned for x in ast.walk(st)):
+            hit = next(c for c in ast.walk(st.iter) if reorders(c))  # the loop that fills the tables runs over a re-ordered sequence
+        elif isinstance(st, ast.Assign) and any(isinstance(t, ast.Name) and t.id in returned for t in st.targets) and any(reorders(c) for c in ast.walk(st.value)):
+            hit = next(c for c in ast.walk(st.value) if reorders(c))  # a finished table is rebuilt in another order
+        elif isinstance(st, ast.Expr) and reorders(st.value) and isinstance(st.value.func, ast.Attribute) and norm(st.value.func.value) in returned:
+            hit = st.value
+        if hit is not None:
+            ck.violation(rule, f, hit, what, positive=True, construct=f"process_node_fields: {norm(hit)[:70]} re-orders the fields (declaration order is what get_child_nodes / iter_child_fields promise)")
+            return
+    ck.holds(rule, f, f.node, what)
